@@ -178,7 +178,7 @@ theorem family_stamp_naive (is : List Item) (Y : Int) (o : Nat) (hvd : VD Y o) (
     ∃ p', Parse.parse Parsed.new text is = .ok p' ∧
       ParseFrom.resolve .naive p' = .ok (.ok (.naive ⟨dateOfYo Y o, ⟨t.secs, 0⟩⟩)) := by
   obtain ⟨fy, _⟩ := date_facts Y o hvd
-  obtain ⟨_, hsep, _, _, _⟩ := hU
+  obtain ⟨_, ⟨hsep, _⟩, _, _, _⟩ := hU
   obtain ⟨hEy, _, _, _, _⟩ := hE
   simp only [exprYears, shown, onSome, fy] at hEy
   obtain ⟨p', h1, hR⟩ := family_stamp_core is Y o hvd t htv ⟨some (dateOfYo Y o), some t, none⟩ rfl rfl
@@ -238,7 +238,7 @@ theorem family_stamp_zoned (is : List Item) (z : Zoned) (hu : NDTInv z.utc) (Y :
     ∃ p', Parse.parse Parsed.new text is = .ok p' ∧
       ∀ v', truncate_to_precision is (.zoned z) = some v' → ParseFrom.resolve .zoned p' = .ok (.ok v') := by
   obtain ⟨fy, _⟩ := date_facts Y o hvd
-  obtain ⟨_, hsep, _, _, _⟩ := hU
+  obtain ⟨_, ⟨hsep, _⟩, _, _, _⟩ := hU
   obtain ⟨hEy, _, hEo, _, _⟩ := hE
   simp only [exprYears, shown, hl, onSome, fy] at hEy
   simp only [exprOffset, shown, hl, onSome] at hEo
